@@ -30,6 +30,7 @@ type srcPlugin struct {
 	stopOnce sync.Once
 	stream   *builtin.InMemorySourceRunStream
 	opened   bool
+	stopped  bool // Stop was called: nothing is produced any more
 }
 
 var _ connectorPlugin.SourcePlugin = (*srcPlugin)(nil)
@@ -81,8 +82,16 @@ func (p *srcPlugin) produce(s *builtin.InMemorySourceRunStream, server pconnecto
 			s.Close(errors.New("injected: source read failed"))
 			return
 		}
+		// The Stop contract of a source plugin: no record after the position Stop returned. The
+		// position is therefore advanced, under the lock Stop takes, BEFORE the record is sent.
 		p.mu.Lock()
+		if p.stopped {
+			p.mu.Unlock()
+			return
+		}
 		k := p.next + 1
+		p.next = k
+		p.produced = true
 		p.mu.Unlock()
 		rec := opencdc.Record{
 			Position:  posOf(k),
@@ -94,10 +103,6 @@ func (p *srcPlugin) produce(s *builtin.InMemorySourceRunStream, server pconnecto
 		if err := server.Send(pconnector.SourceRunResponse{Records: []opencdc.Record{rec}}); err != nil {
 			return
 		}
-		p.mu.Lock()
-		p.next = k
-		p.produced = true
-		p.mu.Unlock()
 		p.w.Log("read", "src", "", k)
 	}
 }
@@ -105,6 +110,7 @@ func (p *srcPlugin) produce(s *builtin.InMemorySourceRunStream, server pconnecto
 func (p *srcPlugin) Stop(context.Context, pconnector.SourceStopRequest) (pconnector.SourceStopResponse, error) {
 	p.mu.Lock()
 	defer p.mu.Unlock()
+	p.stopped = true
 	if !p.produced {
 		return pconnector.SourceStopResponse{}, nil
 	}
@@ -276,6 +282,13 @@ const (
 )
 
 func (s PluginService) NewDispenser(_ log.CtxLogger, name string, _ string) (connectorPlugin.Dispenser, error) {
+	// looking a plugin up / starting its process takes time: gate "dispense.<kind>"
+	switch name {
+	case PluginSrc:
+		s.w.Arrive("dispense.src")
+	case PluginDst:
+		s.w.Arrive("dispense.dst")
+	}
 	switch name {
 	case PluginSrc:
 		return &dispenser{w: s.w, kind: "src"}, nil
